@@ -529,7 +529,7 @@ pub fn main(ctx: &Ctx) {
     campaign(
         ctx,
         Campaign {
-            total_cases: ctx.pick(1_000, 15_000),
+            total_cases: ctx.pick(1_000, 12_000),
             max_shrink_iters: 100,
             limits: Limits { cpu_s: 20, wall_s: 120, as_bytes: 4 << 30 },
             meta: Meta {
